@@ -357,6 +357,10 @@ fn in_process_families(tier: Tier, checked: bool) -> Vec<(String, u64)> {
         v.push(("cgfx-backward".to_string(), (w.lists3.len() * w.cgfx_backward.len()) as u64));
     }
     v.push(("etcneg".to_string(), 6));
+    // state carried between calls: every 97th conforming file read right after a fixed series of failing calls
+    for c in Container::ALL {
+        v.push((format!("poisoned-{}", c.name()), ((w.lists(c).len() * w.layouts(c).len()) / 97) as u64));
+    }
     v
 }
 
@@ -368,6 +372,20 @@ fn run_case(tier: Tier, fam: &str, idx: u64, t: &mut Tally) {
             let list = idx as usize / ny;
             if list < w.lists(c).len() {
                 judge_conforming(c, &w.textures(c, list), &w.layouts(c)[idx as usize % ny], fam, idx, t);
+            }
+        }
+    } else if let Some(cn) = fam.strip_prefix("poisoned-") {
+        if let Some(c) = Container::from_name(cn) {
+            let ny = w.layouts(c).len();
+            let real = idx as usize * 97;
+            let list = real / ny;
+            if list < w.lists(c).len() {
+                props::poison::failing_calls();
+                let before = t.violations.len();
+                judge_conforming(c, &w.textures(c, list), &w.layouts(c)[real % ny], fam, idx, t);
+                for v in t.violations.iter_mut().skip(before) {
+                    v.sig = format!("after-failed-calls:{}", v.sig);
+                }
             }
         }
     } else if let Some(cn) = fam.strip_prefix("magic-") {
